@@ -115,7 +115,7 @@ pub fn probe(args: &[String]) {
                 let consistent = cdecao::io::check_data_consistency(&p, &c).is_ok();
                 let n = p.len();
                 let mut found = serde_json::Value::Null;
-                let places: usize = c.iter().map(|x| cdecao::verif::course_fields(x).4).sum();
+                let places: usize = c.iter().map(|x| cdecao::verif::course_fields(x).4).fold(0usize, |a, b| a.saturating_add(b));
                 if consistent && n > 0 && places < 5000 {
                     let (res, _) = cdecao::caobab::solve(std::sync::Arc::new(c), std::sync::Arc::new(p), rooms.as_ref(), false, 1);
                     found = json!(res.is_some());
